@@ -310,16 +310,16 @@ def archive_members():
     names = member_names()
     read_archive = a.read_archive            # the real entry point (taken before the registry functions are replaced)
 
-    def build(kind, group):
+    def build(kind, group, content=None):
         buf = io.BytesIO()
         if kind == "zip":
             with zipfile.ZipFile(buf, "w") as zf:
                 for n in group:
-                    zf.writestr(n, b"member " + n.encode())
+                    zf.writestr(n, b"member " + n.encode() if content is None else content)
         else:
             with tarfile.open(fileobj=buf, mode="w:gz" if kind == "tar.gz" else "w") as tf:
                 for n in group:
-                    data = b"member " + n.encode()
+                    data = b"member " + n.encode() if content is None else content
                     ti = tarfile.TarInfo(n)
                     ti.size = len(data)
                     tf.addfile(ti, io.BytesIO(data))
@@ -356,6 +356,26 @@ def archive_members():
                                 {"dispatches (extractor of get_extractor(basename), path)": want},
                                 {"dispatches": list(spies.calls), "exception": repr(exc) if exc else None},
                                 "archive_extractor.py::read_archive")
+                # what a member CONTAINS decides nothing: content signatures of the routed families x routable / unroutable names
+                for sig, content in SIGNATURES.items():
+                    for n in ("docs/a.txt", "b.pdf", "c.docx", "d.weird", "noext", "e.html", "F.RTF", "g.bin"):
+                        del spies.calls[:]
+                        _clear_caches()
+                        apath = f"bundle.{kind}"
+                        exc = None
+                        try:
+                            list(read_archive(build(kind, [n], content), apath))
+                        except Exception as e:  # noqa
+                            exc = e
+                        b = os.path.basename(n)
+                        skip = b.startswith(".") or n.startswith("__MACOSX/") or not r.is_supported_file(b) or b.lower().endswith(nested)
+                        want = [] if skip else [(_label(b), f"{apath}!/{n}")]
+                        if exc is not None or spies.calls != want:
+                            return ({"archive": kind, "members": [n], "member data starts with": f"{sig} signature {content[:16]!r}", "archive_path": apath,
+                                     "mimetypes": cname},
+                                    {"dispatches (extractor of get_extractor(basename), path)": want},
+                                    {"dispatches": list(spies.calls), "exception": repr(exc) if exc else None},
+                                    "archive_extractor.py::read_archive")
                 # order / interference between members: the full archive once more, strictly
                 del spies.calls[:]
                 _clear_caches()
